@@ -115,7 +115,12 @@ fn main() {
         }
     }
     // 2. the generated search
-    (def.run)(&ctx);
+    std::thread::scope(|sc| {
+        let mon = sc.spawn(|| ctx.fixed_monitor());
+        (def.run)(&ctx);
+        ctx.fixed_monitor_stop();
+        mon.thread().unpark();
+    });
     // 3. same under the chk profile
     if def.chk_child && !child && !ctx.is_chk() && std::env::var("YQV_NO_CHK").is_err() {
         run_chk_child(&ctx, &id);
